@@ -46,16 +46,38 @@ def drv_kind(spec):
     return "oscar" if not spec.is_jetscape() else spec.kind
 
 
+NONASCII = [" (Universität Frankfurt)", " µ=0 β≈1 — ℏc", " données à 200 GeV", " 衝突 ☢", " naïve café", "  ", " \t"]
+
+
+class DSpec(rmodel.FileSpec):
+    """a FileSpec whose free-text comment lines (Oscar: units and version line, JETSCAPE: column-header line) carry extra
+    text: non-ASCII characters (UTF-8 on disk) or trailing blanks / tabs"""
+    deco = None
+
+    def lines(self):
+        L = super().lines()
+        if self.deco:
+            idx = [0] if self.is_jetscape() else [1, 2]
+            for i, d in zip(idx, self.deco):
+                L[i] = L[i] + d
+        return L
+
+
 def spec_to_json(spec):
-    return dict(kind=spec.kind, cols=list(spec.cols), events=[[list(r) for r in ev] for ev in spec.events],
-                tab_headers=spec.tab_headers, trailing_nl=spec.trailing_nl, impacts=list(spec.impacts),
-                sigma=list(spec.sigma))
+    d = dict(kind=spec.kind, cols=list(spec.cols), events=[[list(r) for r in ev] for ev in spec.events],
+             tab_headers=spec.tab_headers, trailing_nl=spec.trailing_nl, impacts=list(spec.impacts),
+             sigma=list(spec.sigma))
+    if getattr(spec, "deco", None):
+        d["deco"] = list(spec.deco)
+    return d
 
 
 def spec_from_json(d):
-    return rmodel.FileSpec(d["kind"], d["cols"], d["events"], tab_headers=d.get("tab_headers", True),
-                           trailing_nl=d.get("trailing_nl", True), impacts=d.get("impacts"),
-                           sigma=tuple(d.get("sigma", ("0.000314633", "6.06164e-07"))))
+    s = DSpec(d["kind"], d["cols"], d["events"], tab_headers=d.get("tab_headers", True),
+              trailing_nl=d.get("trailing_nl", True), impacts=d.get("impacts"),
+              sigma=tuple(d.get("sigma", ("0.000314633", "6.06164e-07"))))
+    s.deco = d.get("deco")
+    return s
 
 
 def gen_spec(rng, kind, style=None):
@@ -80,6 +102,10 @@ def gen_spec(rng, kind, style=None):
         spec.trailing_nl = False
     if not spec.is_jetscape() and rng.random() < 0.3:
         spec.impacts = [rng.choice(["0.000", "12.345", "1e+01", "7"]) for _ in spec.events]
+    spec = spec_from_json(spec_to_json(spec))
+    if rng.random() < 0.25:
+        spec.deco = [rng.choice(NONASCII) for _ in range(1 if spec.is_jetscape() else 2)]
+        style += "+free-text"
     return spec, style
 
 
@@ -210,15 +236,165 @@ def cut_sampled(lay, fidx, k):
     return lay.allowed_events(k) is not None or (k + fidx) % 4 == 0
 
 
+# ----------------------------------------------------------------------------- round-4 devices (sampled variants)
+ENVS = ["chdir", "nperr", "rng", "print"]
+COPIES = ["copy", "deepcopy", "pickle"]
+
+
+def gen_device(rng, ends_before_newline=False):
+    """how a damaged file is written and opened, besides the plain way"""
+    dev = {}
+    u = rng.random()
+    if u < 0.45:
+        dev["eol"] = "crlf"
+        if ends_before_newline and rng.random() < 0.5:
+            dev["eol"] = "crlf-cr"      # the CRLF file cut between its CR and its LF
+    if rng.random() < 0.6 or not dev:
+        dev["env"] = sorted(rng.sample(ENVS, rng.randint(1, 3)))
+    if rng.random() < 0.3:
+        dev["copy"] = rng.choice(COPIES)
+    return dev
+
+
+def canon_obj(spec, obj):
+    key2line = {}
+    for ev, lns in zip(spec.events, spec.particle_line_numbers()):
+        for row, ln in zip(ev, lns):
+            key2line[float(row[0])] = ln
+    evs = obj.particle_objects_list()
+    ev_s = "|".join("." if not ev else ",".join(str(key2line.get(rmodel.first_col_key(spec, p), -1)) for p in ev) for ev in evs)
+    fmt = obj.oscar_format() if not spec.is_jetscape() else "-"
+    attrs = ",".join(obj.custom_attr_list) if not spec.is_jetscape() else ""
+    foot = len(obj.event_end_lines_) if not spec.is_jetscape() else 0
+    return (f"ok ne={obj.num_events()} counts={rmodel.counts_repr(obj.num_output_per_event())} fmt={fmt} attrs={attrs} "
+            f"foot={foot} ev={ev_s}")
+
+
+def run_variant(spec, text, dev, data=None, **kw):
+    """open the (damaged) text with the real class under the devices `dev`; returns (canonical outcome, problems).
+    `data`: raw bytes to write instead of the encoded text (cuts inside a multi-byte character)."""
+    import copy
+    import pickle
+    import random as _random
+    import shutil
+    import tempfile
+    import numpy as np
+    from sparkx.Oscar import Oscar
+    from sparkx.Jetscape import Jetscape
+    problems = []
+    eol = dev.get("eol")
+    if data is None:
+        t = text.replace("\n", "\r\n") if eol else text
+        if eol == "crlf-cr":
+            t += "\r"
+        data = t.encode("utf-8")
+    env = dev.get("env") or []
+    d = tempfile.mkdtemp(prefix="verif_c07_", dir=os.environ.get("VERIF_TMP", "/tmp"))
+    name = "x" + spec.suffix()
+    with open(os.path.join(d, name), "wb") as f:
+        f.write(data)
+    saved = dict(cwd=os.getcwd(), err=np.geterr(), po=np.get_printoptions())
+    try:
+        path = os.path.join(d, name)
+        if "chdir" in env:
+            os.chdir(d)
+            path = name
+        if "print" in env:
+            np.set_printoptions(precision=2, threshold=3, linewidth=40, suppress=True)
+        if "rng" in env:
+            _random.seed(12345)
+            _random.random()
+            np.random.seed(54321)
+            np.random.rand(3)
+        np.seterr(all="warn" if "nperr" in env else "ignore")
+        before = (os.getcwd(), dict(np.geterr()), _random.getstate(), np.random.get_state()[1].tobytes(), np.random.get_state()[2])
+        kw2 = dict(kw, particletype="parton") if spec.kind == "jetscapeP" else dict(kw)
+        try:
+            obj = Jetscape(path, **kw2) if spec.is_jetscape() else Oscar(path, **kw2)
+            err = None
+        except Exception as e:
+            obj, err = None, rmodel.classify(e)
+        after = (os.getcwd(), dict(np.geterr()), _random.getstate(), np.random.get_state()[1].tobytes(), np.random.get_state()[2])
+        for what, a, b in zip(("cwd", "np.geterr()", "random state", "np.random state", "np.random position"), before, after):
+            if a != b:
+                problems.append(f"opening the file changed {what}")
+        if err is not None:
+            return err, problems
+        out = canon_obj(spec, obj)
+        c = dev.get("copy")
+        if c:
+            try:
+                o2 = copy.copy(obj) if c == "copy" else copy.deepcopy(obj) if c == "deepcopy" else pickle.loads(pickle.dumps(obj))
+                out2 = canon_obj(spec, o2)
+            except Exception as e:
+                out2 = f"copy-failed:{type(e).__name__}"
+            if out2 != out:
+                problems.append(f"the {c} of the loaded object shows `{out2}`, the object itself `{out}`")
+            out = out2 if out2.startswith("ok") else out
+        return out, problems
+    finally:
+        os.chdir(saved["cwd"])
+        np.seterr(**saved["err"])
+        np.set_printoptions(**saved["po"])
+        shutil.rmtree(d, ignore_errors=True)
+
+
+def real_outcome(spec, text, kw=None, dev=None, data=None):
+    kw = kw or {}
+    if not dev and data is None:
+        return rmodel.run_real(spec, text=text, **kw)
+    return run_variant(spec, text, dev or {}, data=data, **kw)[0]
+
+
+def variant_rng(vseed, *what):
+    import random as _random
+    return _random.Random(f"{vseed}/" + "/".join(str(w) for w in what))
+
+
+def midchar_cuts(text):
+    """byte prefixes of the UTF-8 file that end inside a multi-byte character: [(char offset, bytes)]"""
+    out = []
+    b = 0
+    for k, ch in enumerate(text):
+        n = len(ch.encode("utf-8"))
+        if n > 1:
+            for j in range(1, n):
+                out.append((k, text[:k].encode("utf-8") + ch.encode("utf-8")[:j]))
+        b += n
+    return out
+
+
 def _real_cuts(args):
-    spec, fidx, lo, hi = args
+    """per cut k: (plain outcome, outcome with a keep-everything filter | None, device variant | None)"""
+    spec, fidx, vseed, lo, hi = args
     text = spec.text()
     lay = Layout(spec)
     out = []
     for k in range(lo, hi):
         r = rmodel.run_real(spec, text=text[:k])
-        rf = rmodel.run_real(spec, text=text[:k], **keep_all_kw(k)) if cut_sampled(lay, fidx, k) else None
-        out.append((r, rf))
+        samp = cut_sampled(lay, fidx, k)
+        rf = rmodel.run_real(spec, text=text[:k], **keep_all_kw(k)) if samp else None
+        rv = None
+        vr = variant_rng(vseed, "cut", k)
+        if (samp and vr.random() < 0.5) or vr.random() < 0.04:
+            dev = gen_device(vr, ends_before_newline=k < len(text) and text[k] == "\n")
+            kw = keep_all_kw(k) if vr.random() < 0.3 else {}
+            o, probs = run_variant(spec, text[:k], dev, **kw)
+            rv = dict(dev=dev, kw=kw, out=o, problems=probs)
+        out.append((r, rf, rv))
+    return out
+
+
+def _real_midchar(args):
+    """cuts inside a multi-byte character of a non-ASCII header line (no model counterpart: not a string)"""
+    spec, vseed = args
+    out = []
+    for k, data in midchar_cuts(spec.text()):
+        vr = variant_rng(vseed, "mid", len(data))
+        dev = gen_device(vr) if vr.random() < 0.5 else {}
+        dev.pop("eol", None)
+        o, probs = run_variant(spec, None, dev, data=data)
+        out.append(dict(cut=k, nbytes=len(data), dev=dev, out=o, problems=probs))
     return out
 
 
@@ -233,22 +409,34 @@ def _damaged_texts(spec):
     return out
 
 
-def _real_lines(spec):
-    """per particle line: (line, deleted, duplicated, [deleted, duplicated under each keep-everything option])"""
-    return [(i, rmodel.run_real(spec, text=d), rmodel.run_real(spec, text=u),
-             [(rmodel.run_real(spec, text=d, **kw), rmodel.run_real(spec, text=u, **kw)) for kw in KEEP_ALL])
-            for i, d, u in _damaged_texts(spec)]
+def _real_lines(args):
+    """per particle line: (line, deleted, duplicated, [deleted, duplicated under each keep-everything option],
+    [device variants: dict(damage, dev, kw, out, problems)])"""
+    spec, vseed = args
+    res = []
+    for i, d, u in _damaged_texts(spec):
+        var = []
+        for what, t in (("delete", d), ("duplicate", u)):
+            vr = variant_rng(vseed, what, i)
+            dev = gen_device(vr)
+            kw = vr.choice(KEEP_ALL) if vr.random() < 0.4 else {}
+            o, probs = run_variant(spec, t, dev, **kw)
+            var.append(dict(damage=what, dev=dev, kw=kw, out=o, problems=probs))
+        res.append((i, rmodel.run_real(spec, text=d), rmodel.run_real(spec, text=u),
+                    [(rmodel.run_real(spec, text=d, **kw), rmodel.run_real(spec, text=u, **kw)) for kw in KEEP_ALL], var))
+    return res
 
 
-def real_all(pool, specs):
-    """per spec: (outcomes of all cuts, outcomes of all deletions/duplications)"""
+def real_all(pool, specs, vseed=0):
+    """per spec: (outcomes of all cuts, outcomes of all deletions/duplications, cuts inside multi-byte characters)"""
     jobs = []
     for si, spec in enumerate(specs):
         n = len(spec.text()) + 1
         step = max(50, n // 6)
         for lo in range(0, n, step):
-            jobs.append((si, lo, pool.submit(_real_cuts, (spec, si, lo, min(n, lo + step)))))
-    ljobs = [pool.submit(_real_lines, spec) for spec in specs]
+            jobs.append((si, lo, pool.submit(_real_cuts, (spec, si, f"{vseed}/{si}", lo, min(n, lo + step)))))
+    ljobs = [pool.submit(_real_lines, (spec, f"{vseed}/{si}")) for si, spec in enumerate(specs)]
+    mjobs = [pool.submit(_real_midchar, (spec, f"{vseed}/{si}")) if getattr(spec, "deco", None) else None for si, spec in enumerate(specs)]
     cuts = [dict() for _ in specs]
     for si, lo, fut in jobs:
         cuts[si][lo] = fut.result()
@@ -257,7 +445,7 @@ def real_all(pool, specs):
         flat = []
         for lo in sorted(cuts[si]):
             flat += cuts[si][lo]
-        res.append((flat, ljobs[si].result()))
+        res.append((flat, ljobs[si].result(), mjobs[si].result() if mjobs[si] else []))
     return res
 
 
@@ -306,13 +494,15 @@ def examine(ctx, spec, style, model, real, tag="corr"):
     text = lay.text
     fid = file_id(text)
     wf, cuts, lns, rend = model
-    real_cuts, real_lines = real
+    real_cuts, real_lines, real_mid = real
     mism, viol = [], []
     ctx.count(f"file/{spec.kind}")
     ctx.count(f"style/{style}")
     # the grammar of the full byte-level statement (Lean `OSpec.text` / `JSpec.text`) renders this very file
     rp = rend.split(" ")
-    if len(rp) != 3 or rp[0] != "ok" or rp[2] != hexs(text):
+    if getattr(spec, "deco", None):
+        ctx.count("free-text-decorated-file")      # extra free text in comment lines is outside the rendered grammar
+    elif len(rp) != 3 or rp[0] != "ok" or rp[2] != hexs(text):
         mism.append(dict(what=f"the Lean grammar renders a different text for this spec: {rend[:120]}", file=spec_to_json(spec)))
     elif rp[1] != "Y":
         mism.append(dict(what="the Lean grammar does not accept this spec (OSpec.ok / JSpec.ok false)", file=spec_to_json(spec)))
@@ -329,7 +519,29 @@ def examine(ctx, spec, style, model, real, tag="corr"):
         mism.append(dict(what=f"{len(ans)} model answers / {len(real_cuts)} real outcomes for {len(text) + 1} offsets",
                          file=spec_to_json(spec)))
         return mism, viol
-    for k, (a, (r, rf)) in enumerate(zip(ans, real_cuts)):
+    def judge_variant(v, mo_plain, mo_filt, where, k=None, line=None, damage="cut"):
+        """a damaged file written / opened with the round-4 devices: same verdict as the plain form"""
+        dev, kw, out = v["dev"], v["kw"], v["out"]
+        mo_ = mo_filt if kw else mo_plain
+        tag = ",".join([dev.get("eol", "")] + dev.get("env", []) + [dev.get("copy", "")]).strip(",")
+        ctx.case((fid, "variant", damage, k if k is not None else line, json.dumps(dev, sort_keys=True)), True)
+        for t_ in [dev.get("eol")] + dev.get("env", []) + [dev.get("copy")]:
+            if t_:
+                ctx.count("device/" + t_)
+        ctx.count("variant/" + ("ok" if out.startswith("ok") else "err"))
+        base = dict(file=spec_to_json(spec), device=dev, opts=kw or None)
+        if k is not None:
+            base["cut"] = k
+        else:
+            base.update(line=line, damage=damage)
+        for pr in v["problems"]:
+            mism.append(dict(what=f"{where} opened with devices [{tag}] {kw or ''}: {pr}", **base))
+        if mo_ is not None and not same_outcome(mo_, out):
+            mism.append(dict(what=f"{where} written/opened with devices [{tag}] {kw or ''}: code `{out}` vs model (plain LF file) `{mo_}`",
+                             code=out, model=mo_, **base))
+        return out
+
+    for k, (a, (r, rf, rv)) in enumerate(zip(ans, real_cuts)):
         flags, _, mo2 = a.partition(":")
         mo, _, mof = mo2.partition("~")
         pc = lay.position_class(k)
@@ -370,6 +582,23 @@ def examine(ctx, spec, style, model, real, tag="corr"):
             bad = oracle(lay, k, rf)
             if bad:
                 viol.append(dict(damage="cut", cut=k, position=pc, what=bad + f" [opened with {kw}]", observed=rf, opts=kw))
+        if rv is not None:
+            out = judge_variant(rv, mo, mof, f"cut {k} ({pc}) of a {spec.kind} file", k=k)
+            bad = oracle(lay, k, out)
+            if bad:
+                viol.append(dict(damage="cut", cut=k, position=pc, what=bad + f" [devices {rv['dev']} {rv['kw'] or ''}]", observed=out,
+                                 opts=rv["kw"] or None, dev=rv["dev"]))
+    for v in real_mid:
+        # a cut inside a multi-byte character of a free-text header line: always behind no trailer -> only an error is acceptable
+        ctx.case((fid, "midchar", v["nbytes"]), False)
+        ctx.count("midchar-cut/" + ("ok" if v["out"].startswith("ok") else "err"))
+        pc = lay.position_class(v["cut"])
+        for pr in v["problems"]:
+            mism.append(dict(what=f"cut inside a multi-byte character ({v['nbytes']} bytes): {pr}", file=spec_to_json(spec)))
+        bad = oracle(lay, v["cut"], v["out"])
+        if bad:
+            viol.append(dict(damage="cut", cut=v["cut"], nbytes=v["nbytes"], position=pc, observed=v["out"], opts=None,
+                             dev=dict(v["dev"], midchar=v["nbytes"]), what=bad + " [cut inside a multi-byte character]"))
     # deletions / duplications
     if not lns.startswith("ok ") or lns.startswith("ok notwf"):
         mism.append(dict(what=f"driver answer to lines: {lns[:200]}", file=spec_to_json(spec)))
@@ -378,7 +607,7 @@ def examine(ctx, spec, style, model, real, tag="corr"):
     if len(lans) != len(real_lines):
         mism.append(dict(what=f"{len(lans)} model answers for {len(real_lines)} particle lines", file=spec_to_json(spec)))
         return mism, viol
-    for a, (i, rd, ru, rvar) in zip(lans, real_lines):
+    for a, (i, rd, ru, rvar, vvar) in zip(lans, real_lines):
         pos, _, rest = a.partition("=")
         md, _, mu = rest.partition("|")
         for wi, (what, m_, r) in enumerate((("delete", md, rd), ("duplicate", mu, ru))):
@@ -407,11 +636,20 @@ def examine(ctx, spec, style, model, real, tag="corr"):
                                  damage=what, code=r, model=mo, file=spec_to_json(spec)))
             if not r.startswith("err"):
                 viol.append(dict(damage=what, line=i, what=f"a {what}d particle line is not detected: {r}", observed=r, opts=None))
+            for v in vvar:
+                if v["damage"] == what:
+                    out = judge_variant(v, mo, mof, f"{what} line {i} of a {spec.kind} file", line=i, damage=what)
+                    if not out.startswith("err"):
+                        viol.append(dict(damage=what, line=i, opts=v["kw"] or None, dev=v["dev"], observed=out,
+                                         what=f"a {what}d particle line is not detected [devices {v['dev']} {v['kw'] or ''}]: {out}"))
     return mism, viol
 
 
 def violation_key(spec, v):
     sfx = ":with-keep-all-filters" if v.get("opts") else ""
+    if v.get("dev"):
+        # one key for all device combinations; the replay file names the combination
+        sfx += ":under-devices"
     if v["damage"] == "cut":
         return f"cut:{'jetscape' if spec.is_jetscape() else 'oscar'}:{v['position']}{sfx}"
     return f"{v['damage']}:{'jetscape' if spec.is_jetscape() else 'oscar'}:particle-line{sfx}"
@@ -422,21 +660,34 @@ def check_one(spec, v):
     lay = Layout(spec)
     key = violation_key(spec, v)
     kw = v.get("opts") or {}
-    note = f" [opened with {kw}]" if kw else ""
+    dev = v.get("dev") or {}
+    note = (f" [opened with {kw}]" if kw else "") + (f" [devices {dev}]" if dev else "")
+    if dev.get("midchar"):
+        for k, data in midchar_cuts(lay.text):
+            r = real_outcome(spec, None, kw, {x: y for x, y in dev.items() if x != "midchar"}, data=data)
+            bad = oracle(lay, k, r)
+            if bad:
+                return dict(damage="cut", cut=k, nbytes=len(data), position=lay.position_class(k), what=bad + note, observed=r,
+                            opts=v.get("opts"), dev=dict(dev, midchar=len(data)))
+        return None
     if v["damage"] == "cut":
         text = lay.text
         for k in range(len(text) + 1):
-            r = rmodel.run_real(spec, text=text[:k], **kw)
+            d2 = dev
+            if dev.get("eol") == "crlf-cr" and not (k < len(text) and text[k] == "\n"):
+                d2 = dict(dev, eol="crlf")
+            r = real_outcome(spec, text[:k], kw, d2)
             bad = oracle(lay, k, r)
             if bad:
-                w = dict(damage="cut", cut=k, position=lay.position_class(k), what=bad + note, observed=r, opts=v.get("opts"))
+                w = dict(damage="cut", cut=k, position=lay.position_class(k), what=bad + note, observed=r, opts=v.get("opts"),
+                         dev=d2 or None)
                 if violation_key(spec, w) == key:
                     return w
         return None
     for i, d, u in _damaged_texts(spec):
-        r = rmodel.run_real(spec, text=d if v["damage"] == "delete" else u, **kw)
+        r = real_outcome(spec, d if v["damage"] == "delete" else u, kw, dev)
         if not r.startswith("err"):
-            return dict(damage=v["damage"], line=i, opts=v.get("opts"), observed=r,
+            return dict(damage=v["damage"], line=i, opts=v.get("opts"), dev=dev or None, observed=r,
                         what=f"a {v['damage']}d particle line is not detected{note}: {r}")
     return None
 
@@ -474,7 +725,9 @@ def shrink(spec, v, budget_s=20):
 
 def report(ctx, spec, v, seen):
     key = violation_key(spec, v)
-    if key in seen:
+    # a failure already reported for the plain form is not reported again for its device / option variants
+    plain = key.replace(":under-devices", "")
+    if key in seen or plain in seen or plain.replace(":with-keep-all-filters", "") in seen:
         return
     seen.add(key)
     s2, v2 = shrink(spec, v)
@@ -487,8 +740,30 @@ def report(ctx, spec, v, seen):
         exp = "an exception"
     if v2.get("opts"):
         dmg["options"] = v2["opts"]
+    if v2.get("dev"):
+        dmg["device"] = v2["dev"]
+        if v2.get("nbytes"):
+            dmg["nbytes"] = v2["nbytes"]
     ctx.violation(key, v2["what"], dict(input=dict(file=spec_to_json(s2), text=lay.text, **dmg), expected=exp,
                                         observed=v2["observed"], how_to_replay="./check C07 --replay <this file>"))
+
+
+def probe_devices(ctx):
+    """once per run: the clean-file behaviour the devices rely on (CRLF, non-ASCII free text, copies of the loaded object)"""
+    import random as _random
+    r0 = _random.Random(2026)
+    for kind in ("oscar2013", "jetscape"):
+        spec = spec_from_json(spec_to_json(rmodel.gen_spec(r0, kinds=[kind], nev=2, maxpart=2)))
+        plain = rmodel.run_real(spec)
+        spec.deco = [NONASCII[0], NONASCII[3]][:1 if spec.is_jetscape() else 2]
+        for name, dev in (("crlf", dict(eol="crlf")), ("chdir", dict(env=["chdir"])), ("copy", dict(copy="copy")),
+                          ("deepcopy", dict(copy="deepcopy")), ("pickle", dict(copy="pickle"))):
+            out, probs = run_variant(spec, spec.text(), dev)
+            ok = out == plain and not probs
+            ctx.count(f"probe/{name}/{'accepted' if ok else 'REJECTED'}")
+            if not ok:
+                ctx.brk("correspondence-broken", f"device probe: an undamaged {kind} file with non-ASCII free text under device {name} gives "
+                        f"`{out}` {probs}, the plain file `{plain}`", case=dict(file=spec_to_json(spec), device=dev, cut=len(spec.text())))
 
 
 # ----------------------------------------------------------------------------- correspondence
@@ -511,11 +786,25 @@ def correspond(ctx):
                 "particle line is one case.  non-trivial = the damage lies behind the header lines (cut inside / at the "
                 "boundary of an out, particle, end, event-header or trailer line; every deletion/duplication); distinct by "
                 "(file hash, damage).")
+    ctx.rule += ("  Round-4 devices (sampled; the all-offset enumeration stays on the plain LF form): every deletion / duplication "
+                 "and about half of the trailer-region cuts (4% of the others) are ALSO written with CRLF line endings (incl. the CRLF "
+                 "file cut between CR and LF), opened by a bare relative name after os.chdir into a fresh directory, under "
+                 "np.seterr(all='warn') / non-default numpy print options / advanced `random` and `np.random` states (cwd, np.geterr() "
+                 "and both RNG states must be left as found), the loaded object replaced by its copy / deepcopy / pickle round trip "
+                 "before it is observed; a quarter of the files carry non-ASCII text (UTF-8) or trailing blanks/tabs in their free-text "
+                 "comment lines, with all character offsets enumerated and every cut inside a multi-byte character tried.  Verdict "
+                 "and model outcome must be those of the plain damaged file.")
+    ctx.assumptions.append("C07 devices: the clean readers accept CRLF files, non-ASCII free-text header lines (Python's UTF-8 default) and "
+                           "trailing blanks there (probed on every run); CRLF bytes are outside the Lean text model (the model is fed the LF "
+                           "text, the real code must treat the CRLF bytes identically).  ITERATORS device not applicable: the API under test "
+                           "takes a path (str) and an options dict, no list-like inputs.")
     ctx.assumptions.append("C07: truncation = prefix of the byte string; the classification of rendered lines (each line has the "
                            "observations of its kind, `OFile.wf`/`JFile.wf`) and the hypotheses `prefixHyp`/`jprefixHyp` on the "
                            "observations of partial lines are string-level facts CHECKED by the driver on every generated file / "
                            "every prefix (flags S, H), not proved; exception classes are recorded, not compared")
     per_kind = ctx.n(5, 40)
+    vseed = rng.getrandbits(32)
+    probe_devices(ctx)
     specs = list(corpus())
     for kind in KINDS:
         for _ in range(per_kind):
@@ -526,7 +815,7 @@ def correspond(ctx):
     models = model_all([s for s, _ in specs])
     ctx.cov["model_run_s"] = round(time.time() - t0, 1)
     with cf.ProcessPoolExecutor(NPROC) as pool:
-        reals = real_all(pool, [s for s, _ in specs])
+        reals = real_all(pool, [s for s, _ in specs], vseed=vseed)
     ctx.cov["correspond_run_s"] = round(time.time() - t0, 1)
     nm = 0
     allviol = []
@@ -554,7 +843,7 @@ def search(ctx, budget_s):
     seen = set()
     n = 0
     # what the correspondence run already saw on the real code
-    for spec, v in getattr(ctx, "_c07_viol", []):
+    for spec, v in sorted(getattr(ctx, "_c07_viol", []), key=lambda sv: (bool(sv[1].get("dev")), bool(sv[1].get("opts")))):
         report(ctx, spec, v, seen)
     # the case where model and code first differed
     todo = []
@@ -566,24 +855,33 @@ def search(ctx, budget_s):
         while time.time() - t0 < budget_s and len(seen) < 3:
             batch = todo[:8] if todo else [gen_spec(rng, rng.choice(KINDS))[0] for _ in range(8)]
             todo = todo[8:]
-            for spec, (cuts, lines) in zip(batch, real_all(pool, batch)):
+            for spec, (cuts, lines, mids) in zip(batch, real_all(pool, batch, vseed=rng.getrandbits(32))):
                 lay = Layout(spec)
                 n += 1
                 ctx.case((file_id(lay.text), "oracle-file"), True)
                 ctx.count("oracle-cuts", len(cuts))
                 ctx.count("oracle-lines", 2 * (1 + len(KEEP_ALL)) * len(lines))
-                ctx.count("oracle-cuts+filters", sum(1 for _, rf in cuts if rf is not None))
-                for k, (r, rf) in enumerate(cuts):
-                    for kw, x in ((None, r), (keep_all_kw(k), rf)):
+                ctx.count("oracle-cuts+filters", sum(1 for c in cuts if c[1] is not None))
+                ctx.count("oracle-cuts+devices", sum(1 for c in cuts if c[2] is not None) + len(mids))
+                for k, (r, rf, rv) in enumerate(cuts):
+                    for kw, dev, x in ((None, None, r), (keep_all_kw(k), None, rf),
+                                       ((rv["kw"] or None, rv["dev"], rv["out"]) if rv else (None, None, None))):
                         bad = oracle(lay, k, x) if x is not None else None
                         if bad:
-                            report(ctx, spec, dict(damage="cut", cut=k, position=lay.position_class(k), observed=x, opts=kw,
-                                                   what=bad + (f" [opened with {kw}]" if kw else "")), seen)
-                for i, rd, ru, rvar in lines:
+                            report(ctx, spec, dict(damage="cut", cut=k, position=lay.position_class(k), observed=x, opts=kw, dev=dev,
+                                                   what=bad + (f" [opened with {kw}]" if kw else "") + (f" [devices {dev}]" if dev else "")), seen)
+                for v in mids:
+                    bad = oracle(lay, v["cut"], v["out"])
+                    if bad:
+                        report(ctx, spec, dict(damage="cut", cut=v["cut"], nbytes=v["nbytes"], position=lay.position_class(v["cut"]),
+                                               observed=v["out"], opts=None, dev=dict(v["dev"], midchar=v["nbytes"]),
+                                               what=bad + " [cut inside a multi-byte character]"), seen)
+                for i, rd, ru, rvar, vvar in lines:
                     for wi, (what, r) in enumerate((("delete", rd), ("duplicate", ru))):
-                        for kw, x in [(None, r)] + [(kw, pair[wi]) for kw, pair in zip(KEEP_ALL, rvar)]:
+                        for kw, dev, x in [(None, None, r)] + [(kw, None, pair[wi]) for kw, pair in zip(KEEP_ALL, rvar)] + \
+                                [(v["kw"] or None, v["dev"], v["out"]) for v in vvar if v["damage"] == what]:
                             if not x.startswith("err"):
-                                report(ctx, spec, dict(damage=what, line=i, observed=x, opts=kw,
+                                report(ctx, spec, dict(damage=what, line=i, observed=x, opts=kw, dev=dev,
                                                        what=f"a {what}d particle line is not detected"
                                                             + (f" when the file is opened with {kw}" if kw else "") + f": {x}"), seen)
             if time.time() - t0 > budget_s:
@@ -604,6 +902,7 @@ def replay(ctx, path):
         inp = dict(file=c["file"], damage="cut", cut=c.get("cut", 0)) if "cut" in c else \
             dict(file=c["file"], damage=c.get("damage", "delete"), line=c.get("line", 0))
         inp["options"] = c.get("opts")
+        inp["device"] = c.get("device")
     spec = spec_from_json(inp["file"])
     lay = Layout(spec)
     k = drv_kind(spec)
@@ -611,9 +910,15 @@ def replay(ctx, path):
     op = "ctorF" if kw else "ctor"
     if kw:
         print(f"[C07] constructor options: {kw}")
+    dev = dict(inp.get("device") or {})
+    if dev:
+        print(f"[C07] devices (how the damaged file is written / opened): {dev}")
+    data = None
+    if dev.pop("midchar", None):
+        data = dict((len(b), b) for _, b in midchar_cuts(lay.text)).get(inp.get("nbytes"))
     if inp["damage"] == "cut":
         text = lay.text[:inp["cut"]]
-        real = rmodel.run_real(spec, text=text, **kw)
+        real = real_outcome(spec, text, kw, dev, data=data)
         model = common.run_driver("C07", ["\t".join([op, k, hexs(text)])])[0]
         bad = oracle(lay, inp["cut"], real)
         print(f"[C07] {spec.kind} file of {len(lay.text)} bytes cut to {inp['cut']} bytes ({lay.position_class(inp['cut'])}); "
@@ -621,7 +926,7 @@ def replay(ctx, path):
     else:
         dm = {i: (a, b) for i, a, b in _damaged_texts(spec)}
         text = dm[inp["line"]][0 if inp["damage"] == "delete" else 1]
-        real = rmodel.run_real(spec, text=text, **kw)
+        real = real_outcome(spec, text, kw, dev)
         model = common.run_driver("C07", ["\t".join([op, k, hexs(text)])])[0]
         bad = None if real.startswith("err") else f"a {inp['damage']}d particle line is not detected: {real}"
         print(f"[C07] {spec.kind} file, particle line {inp['line']} {inp['damage']}d")
